@@ -15,7 +15,10 @@ def run():
                             ["cmd=awalk"]],
         "device panicked, hung or left the specification", 
         "seeded random histories over 9 regions x {nb, async, async+ClassC} x {OTAA, ABP}: joins (JoinAccepts with every DLSettings/RxDelay/CFList kind incl. RFU), sends, downlinks of every class (authentic with MAC-command streams whose fields are drawn from boundary+random sets, replays, forged, foreign, random bytes, oversize), radio faults; every call runs under catch_unwind and an RNG draw budget; distinct = distinct (region/front, event kind, response, frame classes, pending length) tuples",
-        macfam.COMMON_ASSUMPTIONS + ["a panic or an exhausted draw budget (>10000 draws in one call) is an event no specification action matches, except the listed open finding"])
+        macfam.COMMON_ASSUMPTIONS + ["a panic or an exhausted draw budget (>10000 draws in one call) is an event no specification action matches, except the listed open finding",
+                                     "certification build: CertTrace.tla states only robustness and counter clauses (what each TS009 command should do is outside the listed properties)"],
+        # the device built with its certification-protocol handler (non-default cargo feature), under CertTrace.tla
+        extra=[macfam.certification(PID)])
 
 def replay(path):
     return macfam.replay(PID, path)
